@@ -388,6 +388,11 @@ func (n *Node[T]) Accept(ctx context.Context, block Block) (ExecutedBlock[T], er
 					break
 				}
 			}
+			// the fetched chunk was added by the response handler
+			continue
+		}
+		if err != nil {
+			return ExecutedBlock[T]{}, fmt.Errorf("failed to read chunk %s referenced in block: %w", chunkCert.ChunkID, err)
 		}
 
 		chunk, err := ParseChunk[T](chunkBytes)
